@@ -21,7 +21,7 @@ RULE = ("(i) synthetic registries whose entries take runtime arguments through t
         "Non-trivial = at least one argument row executed; distinct by input line.")
 ASSUMPTIONS = [
     "pointers into the names slice are indices in the model; slice_ptr_index and the unchecked cast behind the TypeId check are exercised, not modelled",
-    "as for C14: filter = predicate on the display path, sort = any permutation of siblings and argument names, no `threads` option",
+    "as for C14: filter = predicate on the display path, sort = any permutation of siblings and argument names; thread counts only at run-time level (--threads / Divan::threads, sorted, distinct, non-zero); entry-level `threads` absent or empty",
     "the flat semantics used as specification presupposes no module / generic-function name clash (finding F8)",
 ]
 TRUSTED = ["harness/hx-run (value rendering i/s/d, pairing of printed rows with logged calls by execution order)",
@@ -124,6 +124,8 @@ def real_lines(rng, progs, per):
     for p in progs:
         exe = c12.exe_path(p)
         cases.append(p.line("TR", exe, ign="y"))
+        cases.append(p.line("Rp", exe, ign="y", threads=[1, 2]))
+        cases.append(p.line("R", exe, ign="n", threads=[2, 3], sort="N"))
         for s in "knlKNL":
             cases.append(p.line("R", exe, ign="n", sort=s))
         for _ in range(per):
@@ -149,12 +151,22 @@ def streams(tier, rng):
         h["exact_subset" if exact else "substring" if (pos or skip) else "no_filter"] += 1
         syn.append(reg.line("R" if rng.random() < 0.7 else "TR", ign=rng.choice("nnyo"), exact=exact, pos=pos, skip=skip,
                             sort=rng.choice("-knlKNL")))
+    # two or more thread counts: every argument row becomes a parent labelled with the argument, with leaves t=N
+    thr = []
+    while len(thr) < (2500 if big else 260):
+        reg = args_registry(rng, big_len=rng.random() < 0.2)
+        exact, pos, skip = subset_filters(rng, reg) if rng.random() < 0.5 else (False, [], [])
+        threads = rng.choice([[1, 2], [1, 2], [1, 2, 3], [2, 4], [2], [1], [3]])
+        thr.append(reg.line(rng.choice(["R", "p", "Rp"]), ign=rng.choice("nny"), exact=exact, pos=pos, skip=skip,
+                            sort=rng.choice("-knlKNL"), threads=threads))
     progs = [args_tour("e2e_args")] + [P.rand_program(rng, "e2e_a%d" % i, size=12) for i in range(1 if not big else 8)]
     real = real_lines(rng, progs, 4 if not big else 8)
     out = []
     if corpus:
         out.append(Stream("corpus", "c17", corpus, nontrivial=nt))
     out.append(Stream("args-sort-filter", "c17", syn, nontrivial=nt, hist=h))
+    out.append(Stream("thread-branches", "c17", thr, nontrivial=nt,
+                      describe="--threads a,b / Divan::threads with one, two or three thread counts: row label per (argument, thread count)"))
     out.append(Stream("real-crates", "c17", real, nontrivial=nt, impl_runner=c12.build_then_run(progs), impl_timeout=900,
                       describe="%d generated crates: every argument expression kind, types x consts x args, evaluation counters" % len(progs),
                       hist={"crates": len(progs), "cases": len(real)}))
